@@ -23,19 +23,24 @@ Inductive tstate :=
 Inductive outcome :=
 | Done
 | ThrowLogic (c : cref)        (* std::logic_error from the sanity block *)
-| ThrowRuntime                 (* std::runtime_error("GLAM fit failed"): glamfit_complex returned non-zero (fit.h:149-150) *)
+| ThrowRuntime                 (* std::runtime_error: the target already contains data, or "GLAM fit failed" (glamfit_complex returned non-zero) *)
 | Undefined.                   (* execution left the contract: anything may happen *)
 
 (* fit.h, whole function. [solver_ok] abstracts the numerical outcome of glamfit_complex (CHOLMOD), which is not
-   modelled: true = returned 0.  The members are assigned (fit.h:78-115) BEFORE the solver runs, so a solver failure
-   leaves the table modified (keyed under C20); an argument rejection happens before any assignment. *)
+   modelled: true = returned 0.  An argument rejection happens before anything else.  After the checks fit refuses a
+   table that already contains data (std::runtime_error, table untouched); the members are then assigned BEFORE the
+   solver runs, inside a try block whose handler calls clear(): a solver failure leaves the table EMPTY.
+   (tools/translators/fitargs.py requires the guard and the handler to be present in the source.) *)
 Definition fit_step (s : tstate) (a : fitargs) (solver_ok : bool) : tstate * outcome :=
   match fit_check a with
   | Reject c => (s, ThrowLogic c)
   | CheckFault _ => (s, Undefined)
   | Accept =>
       if fit_contract a
-      then (TFitted (orders a) (map fst (knotvecs a)), if solver_ok then Done else ThrowRuntime)
+      then match s with
+           | TFitted _ _ => (s, ThrowRuntime)                       (* "splinetable already contains data, cannot fit" *)
+           | TEmpty => if solver_ok then (TFitted (orders a) (map fst (knotvecs a)), Done) else (TEmpty, ThrowRuntime)
+           end
       else (s, Undefined)
   end.
 
